@@ -94,6 +94,7 @@ type lowStream struct {
 	badValue  string
 	tx        *simStream
 	done      bool
+	closeLast bool // Close() right after the last write
 }
 
 func scenarioBufferedLow(w *world) {
@@ -122,6 +123,7 @@ func scenarioBufferedLow(w *world) {
 	for i := 0; i < n; i++ {
 		ls := &lowStream{sid: uint16(i + 1), from: tp.intn(2)}
 		ls.th = pick[uint64](tp, 0, 0, 1, 100, 1000, 5000, 1<<40)
+		ls.closeLast = tp.intn(3) == 0
 		k := 1 + tp.intn(8)
 		rb := int(w.cfg.Side[1-ls.from].RecvBuf)
 		if rb == 0 {
@@ -198,18 +200,36 @@ func scenarioBufferedLow(w *world) {
 				aux.msgs = append(aux.msgs, m)
 				w.write(ass, m)
 			})
-			for _, sz := range ls.sizes {
+			for i, sz := range ls.sizes {
 				m := w.newMsg(ss, sz, false)
 				x.index[m.ppi] = m
 				d.msgs = append(d.msgs, m)
 				w.write(ss, m)
+				closed := false
+				if ls.closeLast && i == len(ls.sizes)-1 && m.err == nil {
+					// the stream is closed with the last message still unacknowledged: the crossing that its
+					// acknowledgement produces on this (closing) Stream object must be reported like any other
+					_ = s.Close()
+					closed = true
+					w.probe("closed-with-data-outstanding")
+				}
 				// wait until everything written so far has been acknowledged
+				waited := time.Duration(0)
 				for s.BufferedAmount() != 0 {
 					h := vsimBlocking("client.sleep")
 					time.Sleep(10 * time.Millisecond)
 					vsimWoke(h)
 					if w.tornDown {
 						return
+					}
+					if waited += 10 * time.Millisecond; closed && waited > 20*time.Second && !accStreamRegistered(ep.assoc, s) {
+						// the reset handshake overtook the acknowledgement: the bytes are never released on this
+						// object (recorded finding KF8), so there is no crossing to report either
+						if uint64(sz) > ls.th {
+							ls.expected--
+						}
+						w.probe("closed-stream-never-released")
+						break
 					}
 				}
 			}
